@@ -495,6 +495,7 @@ func c09DecodeJSON(doc []byte) (out string, p *ast.Policy) {
 	}); pn != nil {
 		return "panic", nil
 	}
+	c09ReusePolicy(doc, true, out, p) // the same document into receivers that already hold a policy (c09_reuse.go)
 	return
 }
 
@@ -508,6 +509,11 @@ func c09ParseText(txt []byte) (p *ast.Policy, err error) {
 		p = (*ast.Policy)(&q)
 	}); pn != nil {
 		return nil, fmt.Errorf("panic: %v", pn)
+	}
+	if err != nil {
+		c09ReusePolicy(txt, false, "err", nil)
+	} else {
+		c09ReusePolicy(txt, false, "ok "+vh.ShowPolicyC09(p), p)
 	}
 	return
 }
@@ -559,9 +565,11 @@ var c09NodeVals = []any{nil, []any{}, []any{map[string]any{"Value": json.Number(
 func runC09(c *vh.Ctx) {
 	g := vh.NewGen(c.Rng)
 	b := &vh.Batch{}
-	c.Res.Rule = "random policies over all node kinds (every operator, extension calls and extension-typed literal values, is / is..in, like patterns with wildcards and escapes, set and record literals and literal set / record values, every scope form, annotations, Unicode strings): MarshalJSON -> UnmarshalJSON -> AST equal to the original modulo the documented identifications (annotations and record entries by key; decimal / ip literal = constructor call; zero-component pattern = the empty literal), through cedar.Policy and through ast.Policy; PolicySet JSON round trip preserves ids and policies; text -> JSON -> text and JSON -> text -> JSON equal the single-format results; every encoding authorizes identically on 6+ environments; Lean model toJ / fromJ (JSON-tree level) agrees with the Go codec on the generated documents (canonical tree of the encoding; decoded policy) and on near-miss documents (accept / reject / decoded policy; a Go panic is the C10 finding). distinct = distinct policies / documents; non-trivial = policy with at least one condition"
+	c.Res.Rule = "random policies over all node kinds (every operator, extension calls and extension-typed literal values, is / is..in, like patterns with wildcards and escapes, set and record literals and literal set / record values, every scope form, annotations, Unicode strings): MarshalJSON -> UnmarshalJSON -> AST equal to the original modulo the documented identifications (annotations and record entries by key; decimal / ip literal = constructor call; zero-component pattern = the empty literal), through cedar.Policy and through ast.Policy; PolicySet JSON round trip preserves ids and policies; text -> JSON -> text and JSON -> text -> JSON equal the single-format results; every encoding authorizes identically on 6+ environments; every JSON / text policy document and every policy-set document (own encodings and near-miss documents) is also decoded into a REUSED receiver that already holds other content (ast.Policy, cedar.Policy, a PolicySet holding an earlier set plus a policy under its own id; via the method and via json.Unmarshal) and must give the same accept / reject, ids, policies, MarshalJSON bytes and Authorize result as a fresh decode; Lean model toJ / fromJ (JSON-tree level) agrees with the Go codec on the generated documents (canonical tree of the encoding; decoded policy) and on near-miss documents (accept / reject / decoded policy; a Go panic is the C10 finding). distinct = distinct policies / documents; non-trivial = policy with at least one condition"
 
 	pool := g.EnvPool(c.N(40, 400))
+	c09ReuseStart(c, pool)
+	defer func() { c09R = nil }()
 	mut := &vh.TreeMutator{G: g, Keys: c09NodeKeys, Values: c09NodeVals}
 	kindsSeen := map[string]int{}
 
@@ -833,6 +841,7 @@ func runC09(c *vh.Ctx) {
 			c.Report(vh.Finding{Class: "policyset-marshal-fails", What: err.Error(), Check: "oracle", Op: "jsonset-encode", Input: vh.EncPolicies(ips)})
 			continue
 		}
+		c09ReuseSet(sb) // the same document into a PolicySet that already holds policies (c09_reuse.go)
 		var set2 cedar.PolicySet
 		var uerr error
 		if pn := vh.Protect(func() { uerr = set2.UnmarshalJSON(sb) }); pn != nil || uerr != nil {
@@ -873,6 +882,7 @@ func runC09(c *vh.Ctx) {
 					out = "panic"
 					c.Report(vh.Finding{Class: "json-decode-panic", What: "PolicySet.UnmarshalJSON panics on " + string(doc), Check: "oracle", Op: "jsonset-decode", Input: string(doc)})
 				}
+				c09ReuseSet(doc)
 				c.Dist("jsonset-decode:" + vh.FirstWordC13(out))
 				if !vh.HasExponentLiteral(t) {
 					j := b.Add("jsonset-decode", map[string]any{"doc": string(doc)}, out, "")
